@@ -120,6 +120,12 @@ pub struct EnvInner {
     pub rng_log: Vec<u32>,
     // transaction tracking
     pub in_transaction: bool,
+    /// a join attempt is in progress: the network answers exactly 5 s / 6 s after the end of the
+    /// transmission, so a JoinAccept is only heard in a window that the device opened at that time
+    pub joining_tx: bool,
+    pub front_is_nb: bool,
+    /// time of the last window start the device asked for (nb: TimeoutRequest, async: Timer::at)
+    pub window_req: Option<u64>,
     pub singles: u8,
     pub last_tx: Option<Vec<u8>>,
     pub slot_counts: [usize; 5],
@@ -160,6 +166,9 @@ impl Env {
             rng_draws_this_call: 0,
             rng_log: vec![],
             in_transaction: false,
+            joining_tx: false,
+            front_is_nb: false,
+            window_req: None,
             singles: 0,
             last_tx: None,
             slot_counts: [0; 5],
@@ -233,6 +242,21 @@ impl Env {
         if let Some(b) = &f {
             e.slot_counts[slot.index()] += 1;
             e.trace.push(Ev::Deliver { slot, bytes: b.clone() });
+            // join windows are time-respecting: the network's answer is on the air 5 s (RX1) / 6 s (RX2)
+            // after the end of the JoinRequest; a window opened at another time hears nothing
+            if e.joining_tx && matches!(slot, Slot::Rx1 | Slot::Rx2) {
+                let second = if slot == Slot::Rx2 { 1000u64 } else { 0 };
+                let expected = if e.front_is_nb {
+                    (e.tx_ms.wrapping_add(5000).wrapping_add_signed(e.nb_offset_ms) as u64 + second) & 0xFFFF_FFFF
+                } else {
+                    (5000 + second + e.tx_ms as u64).saturating_sub(e.lead_ms as u64)
+                };
+                if e.window_req.map(|w| w & if e.front_is_nb { 0xFFFF_FFFF } else { u64::MAX }) != Some(expected) {
+                    let w = e.window_req;
+                    e.trace.push(Ev::Resp(format!("not heard: window opened at {w:?}, the join answer is on the air at {expected}")));
+                    return None;
+                }
+            }
         }
         f
     }
